@@ -57,6 +57,9 @@ CLAIMED = {
    text="Decides the single-station structural clauses: every PHY transmission happens in an allowed typestate (token / GAP request in ClaimToken|PassToken, status reply in ListenToken|ActiveIdle with a recorded request addressed to this station, application telegram in UseToken; claim only after the silence time-out); every transmission is preceded in the same poll by the 33-bit synchronisation pause, the dispatch by the ongoing-transmission check and the RX-activity update; no second transmission per poll; the byte count of each transmission reaches mark_tx = now + bits_to_time(11*bytes); time-out stagger depends on address and slot time; single bit/time conversion. Collision freedom between several independently scheduled stations and µs timing are NOT decided (schedules of independent processes).",
    note="Trusted: " + TB + "; rules/spec_tables.json; callback contracts of the provided PHY helpers.", ref="§4-C01"),
 
+ "C05": dict(level="other", technique="static analysis: R-PANIC inventory over the call graph of poll() (panic calls, Assert terminators, may-panic std/bitvec calls) discharged by interprocedural typestate unreachability, interval+zone abstract interpretation with call-site / type-invariant / higher-order-buffer hypotheses, must-guards and delegated totality clauses; R-LOOP termination arguments; who-writes support checks over rustc MIR",
+   text="Decides `no panic` as: every panic source in the 230 functions reachable from poll()/poll_multi() (FDL station, codec, token ring, DP master / peripheral / diagnostics, live list, scanner, PHY helper methods; log arguments included, log level non-deterministic) is unreachable in every typestate context started from the proved station invariant, or its numeric / Option precondition is proved, or it belongs to a function whose totality clause (C10.a, C17.a/b, C12.a, C09.b) is re-run, or it holds under a NAMED hypothesis listed in the evidence (H-*: environment / documented API use; I-*: internal invariants, each with a who-writes or shape support check that is run). Decides `no hang` as: each of the loops reachable from poll() is a `for` over a finite iterator or has a checked progress argument (slot loop C14.a, block iterator C17.b, receive loop consumes >= 1 byte unless it exits). Not decided: the hypotheses themselves (time range, PHY buffer size, PDU limits, unchanged application list), bounded wall-clock time, PHY back ends.",
+   note="Trusted: " + TB + "; analysis/panics.py MAY_PANIC_EXTERN table; numdom transfer functions; the named hypotheses H-* listed in evidence/C05.json.", ref="§4-C05"),
  "C19": dict(level="other", technique="static analysis: grammar-shape typestate (pest grammar dumped by pest_meta -> child-sequence automata -> abstract interpretation of rustc MIR), R-PANIC inventory with path-sensitive Option guards and a provenance rule, per-path counters for the legacy-commit overwrite rule, keyword/field table extraction, case-discipline and long-line-marker checks",
    text="Decides `never panics` for the hand-written parser: every panic source reachable from parse()/parse_with_warnings() (panic!/unreachable!/assert!, unwrap/expect, Assert terminators, integer +, from_str_radix) is shown unreachable or guarded for every pair tree the grammar can produce, re-derived from gsd.pest and the MIR on each run. Of `reproduces what the file says` it decides structural necessary conditions only: extended prm data is never overwritten by the legacy commit, <rate>_supp / MaxTsdr_<rate> keywords reach the matching flag / field, keywords recognised in code are compared case-insensitively, long-line markers are removed from string literals for LF and CR LF (when the cleaning code has the recognised replace-chain shape). Field-by-field equality with the file text is not decided.",
    note="Trusted: " + TB + "; pest_meta parser/optimizer (engines/pestshape); conformance of the pest runtime and pest_derive output to the grammar (generated code checked free of panic sites); std functions outside analysis/panics.py:MAY_PANIC_EXTERN do not panic.", ref="§4-C19"),
